@@ -308,7 +308,8 @@ def run(chk):
         json.dump({'failures': chk.failures, 'disagreements': chk.disagreements, 'coverage': rep},
                   open(os.environ['VERIF_DEBUG'], 'w'), indent=1, default=str)
     if big:
-        chk.leanchecker(['PeptVerif.Props.C18', 'PeptVerif.Model.CondenseMass'])
+        chk.leanchecker(['PeptVerif.Props.C18', 'PeptVerif.Model.CondenseMass', 'PeptVerif.Lemmas.CondenseMass',
+                         'PeptVerif.Lemmas.CondenseLabel', 'PeptVerif.Lemmas.DecText'])
     return chk.finish(classify)
 
 
